@@ -1046,10 +1046,55 @@ theorem sum_sketch_exact_of_injective_partial [DecidableEq α] (h : α → Nat) 
   have hlen : (distinct (sortAsc ((distinct as).map h) ++ sortAsc ((distinct bs).map h))).length
       = (distinct (as ++ bs)).length := by
     rw [hperm.length_eq, List.length_map]
-  unfold addKmv
-  simp only [hAne, hBne, Bool.not_false, Bool.and_self, if_true]
+  unfold addKmv addKmvWith
+  simp only [hAne, hBne, Bool.not_false, Bool.and_self, if_true, Gen.ProfileExpr.sumSketchOrder]
   rw [List.take_of_length_le (by rw [length_sortAsc, hlen]; omega),
     estimate_exact_branch _ (by rw [length_sortAsc, hlen]; exact hlt), length_sortAsc, hlen]
+
+/-- **The sketch of a sum is the `KVM_SIZE` smallest *distinct* hashes of both sides: duplicates go first, the cut
+second** (`new_profile.kmv_hashes = sorted(set(self.kmv_hashes + profile.kmv_hashes))[:KVM_SIZE]`; the order of the two
+steps is extracted: `Gen.ProfileExpr.sumSketchOrder`).  For any two non-empty sketches: the sum is the ascending list
+of the distinct hashes of `a ++ b` cut to `KVM_SIZE`; it holds `min KVM_SIZE (number of distinct hashes)` entries, no
+hash twice, ascending, and every hash of either side that it leaves out is at least as large as every hash it keeps.
+(Cutting first — `sorted(set(heapq.nsmallest(KVM_SIZE, a + b)))` — makes `sumSketchOrder = .cutThenDedup` and this
+theorem fail: see `cut_then_dedup_undercounts`.) -/
+theorem sum_sketch_is_k_smallest_distinct (a b : List Nat) (ha : a ≠ []) (hb : b ≠ []) :
+    Gen.ProfileExpr.sumSketchOrder = .dedupThenCut ∧
+    addKmv Gen.Profile.kvmSize a b = (sortAsc (distinct (a ++ b))).take Gen.Profile.kvmSize ∧
+    (addKmv Gen.Profile.kvmSize a b).length = min Gen.Profile.kvmSize (distinct (a ++ b)).length ∧
+    (addKmv Gen.Profile.kvmSize a b).Nodup ∧ SortedAsc (addKmv Gen.Profile.kvmSize a b) ∧
+    (∀ x ∈ a ++ b, x ∉ addKmv Gen.Profile.kvmSize a b → ∀ y ∈ addKmv Gen.Profile.kvmSize a b, y ≤ x) := by
+  have hA : a.isEmpty = false := by cases a with | nil => exact absurd rfl ha | cons _ _ => rfl
+  have hB : b.isEmpty = false := by cases b with | nil => exact absurd rfl hb | cons _ _ => rfl
+  have heq : addKmv Gen.Profile.kvmSize a b = (sortAsc (distinct (a ++ b))).take Gen.Profile.kvmSize := by
+    unfold addKmv addKmvWith
+    simp only [hA, hB, Bool.not_false, Bool.and_self, if_true, Gen.ProfileExpr.sumSketchOrder]
+  refine ⟨rfl, heq, ?_, ?_, ?_, ?_⟩
+  · rw [heq, List.length_take, length_sortAsc]
+  · rw [heq]
+    exact ((sortAsc_perm _).nodup_iff.mpr (nodup_distinct _)).sublist (List.take_sublist _ _)
+  · rw [heq]
+    exact List.Pairwise.sublist (List.take_sublist _ _) (sortAsc_sorted _)
+  · rw [heq]
+    intro x hx hnot y hy
+    have hxs : x ∈ sortAsc (distinct (a ++ b)) := (sortAsc_perm _).mem_iff.mpr ((mem_distinct x _).mpr hx)
+    rw [← List.take_append_drop Gen.Profile.kvmSize (sortAsc (distinct (a ++ b))), List.mem_append] at hxs
+    have hxd : x ∈ (sortAsc (distinct (a ++ b))).drop Gen.Profile.kvmSize := hxs.resolve_left hnot
+    have hs := sortAsc_sorted (distinct (a ++ b))
+    unfold SortedAsc at hs
+    rw [← List.take_append_drop Gen.Profile.kvmSize (sortAsc (distinct (a ++ b))), List.pairwise_append] at hs
+    exact hs.2.2 y hy x hxd
+
+/-- **Why the duplicates must go before the cut** (counterexample for the other order, at sketch size 4): two
+sketches `[1, 2, 3]` of batches that hold the same three values — cutting the concatenation to its 4 smallest
+entries `[1, 1, 2, 2]` and then removing duplicates leaves `[1, 2]`: the estimate is 2 for 3 distinct values, below
+the sketch size.  De-duplicating first keeps `[1, 2, 3]`. -/
+theorem cut_then_dedup_undercounts :
+    addKmvWith .cutThenDedup 4 [1, 2, 3] [1, 2, 3] = [1, 2] ∧
+    estimateCardinality 4 (addKmvWith .cutThenDedup 4 [1, 2, 3] [1, 2, 3]) = some 2 ∧
+    addKmvWith .dedupThenCut 4 [1, 2, 3] [1, 2, 3] = [1, 2, 3] ∧
+    estimateCardinality 4 (addKmvWith .dedupThenCut 4 [1, 2, 3] [1, 2, 3]) = some 3 := by
+  decide
 
 /-- **…and too small when two different values collide** (counterexample; finding K06): the sum keeps a *set* of
 hashes. -/
